@@ -965,7 +965,23 @@ pub fn trace(case: &Case, instr: &Instr, out: &Outcome) -> Vec<Value> {
             }
         }
     }
-    let nodes_fact = json!({"has": nodes_seen > 0, "ok": nodes_bad == 0, "n": nodes_seen});
+    // ... and an accepted Radau step comes out of a Newton iteration that converged: no acceptance (reported by the step-size
+    // path hook that follows it) directly after the `slow` exit of the iteration
+    let mut slow_pending = false;
+    let mut unconverged_accepts = 0usize;
+    if case.method == "RADAU" {
+        for e in log.iter() {
+            if let Ev::Hook { tag, .. } = e {
+                match *tag {
+                    "nw_slow" => slow_pending = true,
+                    "nw_cont" | "nw_conv" | "nw_div" | "nw_exh" | "lu_sing" => slow_pending = false,
+                    t if t.starts_with("post_") => { if slow_pending { unconverged_accepts += 1; } slow_pending = false; }
+                    _ => {}
+                }
+            }
+        }
+    }
+    let nodes_fact = json!({"has": nodes_seen > 0, "ok": nodes_bad == 0, "n": nodes_seen, "conv_ok": unconverged_accepts == 0, "unconv": unconverged_accepts});
     // first_step fact: with first_step given, the second stepper evaluation is at x0 + c2*|h0|*dir
     // the clause only speaks about a first_step not larger than max_step or the span
     let script_at0 = case.script.iter().any(|s| s.k == 0);
